@@ -73,6 +73,11 @@ def ob_state(ctx):
     K = get_class(st, P) if P["src"] != "dyn" else dyn_class(st, P)
     mro = structured_mro(st, K)
     clear(mro)
+    if not hasattr(K, "_get_regex") or "_regex" not in vars(st.structured.StructuredRecord):
+        # the class-level cache is organised differently (refactored): its state cannot be constructed directly; the
+        # behavioural obligations (content, foreign, instances) carry the property
+        ctx.checked()
+        return True
     try:
         primed = []
         for i, C in enumerate(mro):
@@ -203,7 +208,7 @@ def ob_foreign(ctx):
         k = K(rec)
         vk = k.is_valid()
         ctx.observe("valid", vk)
-        if pattern_text(K._get_regex()) is not None:
+        if hasattr(K, "_get_regex") and pattern_text(K._get_regex()) is not None:
             ctx.require(pattern_text(K._get_regex()) == K.structure(), "class-uses-another-class's-pattern")
         sig = getattr(K, "signature", NotImplemented)
         base = st.parts.AbstractPart.structure
